@@ -9,14 +9,24 @@ Sentinel probes (tests, not obligations): analytic oracle (scipy `lpmv` + textbo
 identities, independent of the code's recurrence weights), Laplacian and vor/div <-> wind round
 trips on the stated domain, coefficient-space identities evaluated on the real operators.
 
-Stated domain of the round-trip / exactness probes (DESIGN §6/C02):
-  * zero-mean inputs whose top wavenumber is empty for clip=False (result compared *below* the top
-    wavenumber), top TWO wavenumbers empty for the default clip=True (whole array compared);
+Stated domain of the round-trip / exactness probes (DESIGN §6/C02) = `Dino.C02.Dom ly k` of the theorems:
+  * MASKED fields (zero where `Grid.mask` is false: triangle l < |m|, row 1 and padding rows of the fast
+    layout, padding columns), zero mean (column l = 0), top wavenumber empty for clip=False (k = 1, result
+    compared *below* the top wavenumber), top TWO wavenumbers empty for the default clip=True (k = 2,
+    whole array compared).  `dom()` draws exactly these; every draw on a small grid is also sent to the
+    model's Boolean test `domB` (= `Dom`, theorem `domB_iff`).  Negative control: a field with one entry
+    off the mask is rejected by `domB` and violates Hyp-A on the real code (`control:hypA-unmasked`), so
+    the domain is pinned from both sides.
   * latitude quadrature that resolves the truncation: gauss with nlat >= L, equiangular with
-    nlat >= 2L; grids with nodes at the poles are excluded from everything that divides by cos(lat).
+    nlat >= 2L;
+  * side condition `cos(lat_j) != 0` of the wind theorems (`hcos`): grids with nodes at the poles
+    (`equiangular_with_poles`) are EXCLUDED from everything that divides by cos(lat) (sec2_lat, both wind
+    conversions, Hyp-A/B, round trips); on every grid used there `max|sin_lat| < 1` is checked
+    (`admissible:cos-lat`), and that the pole grid violates it is recorded (`control:poles`).
 """
 import functools
 import math
+import os
 from fractions import Fraction
 
 import numpy as np
@@ -28,7 +38,9 @@ RTOL = 1e-9
 RULE = ('grids from a table (both implementations; fast layout with base_shape_multiple padding in '
         'rows and columns; gauss / equiangular / equiangular_with_poles; radii 1, 0.54, 6.37, 2; '
         'longitude offsets; M from 1 to 6 for the model diff, up to 43 for the probes); spectra: every '
-        'unit coefficient on the small grids, random masked and unmasked (padding filled) spectra, '
+        'unit coefficient on the small grids, random masked and unmasked (padding filled) spectra; Hyp-A/B and '
+        'round-trip fields drawn from Dom (normal * mask, column 0 and top k columns zeroed) plus one unit field '
+        'off the mask per grid as negative control, '
         'random nodal fields; a case is non-trivial when M >= 2 and the input is not identically zero; '
         'distinct = distinct (op, grid, input) hashes')
 
@@ -111,13 +123,20 @@ def run(ctx: common.Ctx):
   from dinosaur import spherical_harmonic as sh
   from dinosaur import jax_numpy_utils as jnu
 
-  ctx.lean('DinoProofs.Properties.C02', 'C02.txt',
-           extra_files=['DinoProofs/Lemmas/Grid.lean', 'DinoProofs/Lemmas/GridFourier.lean',
-                        'Dino/Grid.lean', 'Dino/GridDrv.lean'])
+  extra = ['DinoProofs/Lemmas/Grid.lean', 'DinoProofs/Lemmas/GridFourier.lean', 'Dino/Grid.lean',
+           'Dino/GridDrv.lean']
+  if os.path.exists(os.path.join(common.LEAN, 'DinoProofs/Lemmas/GridLinear.lean')):   # merged with fix f_C02
+    extra.append('DinoProofs/Lemmas/GridLinear.lean')
+  ctx.lean('DinoProofs.Properties.C02', 'C02.txt', extra_files=extra)
   ctx.assumptions.append(
       'C02 partial: the latitude-derivative recurrence is proved consistent with the Laplacian and with '
       'multiplication by sin(lat) (coefficient-space Legendre equation), not derived from a formal '
-      'definition of P_l^m; Hyp-A/Hyp-B of vor_div_roundtrip are sampled numerically, not proved')
+      'definition of P_l^m; T2.6 is an exact-arithmetic reduction (roundtrip_decomp) of the wind round trip '
+      'to the two residuals Hyp-A / Hyp-B, with an epsilon-form (vor_div_roundtrip_eps: residuals <= eps '
+      'relative to max|laplacian psi| => round trip within 2 eps); Hyp-A/Hyp-B themselves are sampled '
+      'numerically on the real code on fields drawn from exactly Dom (masked, zero mean, top wavenumber(s) '
+      'empty), proved exactly only on the rational M = 3 instance lyT; side condition cos(lat) != 0 '
+      '(no nodes at the poles)')
   rng = ctx.rng
   lines, checks = [], []   # checks: (op, inp, impl_value, kind)
 
@@ -372,13 +391,48 @@ def run(ctx: common.Ctx):
       base = int(rng.choice([1, 4, 8])) if fast else None
       hyp_table.append((fast, M, L, nlon, nlat, spacing, radius, float(rng.uniform(0, 1)), base))
 
-  def dom(g, k, masked=True):
+  def dom(g, k):
+    """A random element of `Dino.C02.Dom ly k`: masked, zero mean, top k wavenumbers (and the padding) empty."""
     R, C = g.modal_shape
     L = g.total_wavenumbers
     x = rng.standard_normal((R, C)) * g.mask
     x[:, 0] = 0
     x[:, max(L - k, 0):] = 0
     return x
+
+  def in_dom(g, k, x):
+    """The three clauses of `Dino.C02.Dom ly k x` (shape; l = 0 and l >= L - k; mask), on the real grid."""
+    R, C = g.modal_shape
+    L = g.total_wavenumbers
+    if x.shape != (R, C):
+      return False
+    band = np.zeros(C, dtype=bool)
+    band[0] = True
+    band[max(L - k, 0):] = True
+    return not x[:, band].any() and not x[~np.asarray(g.mask, dtype=bool)].any()
+
+  def off_mask_unit(g, k):
+    """A unit field at an entry (i, l) with mask false and 1 <= l < L - k (it satisfies every clause of
+    Dom except the mask), or None when the grid has no such entry."""
+    R, C = g.modal_shape
+    L = g.total_wavenumbers
+    cand = [(i, l) for i in range(R) for l in range(1, max(L - k, 1)) if not g.mask[i, l]]
+    if not cand:
+      return None
+    i, l = cand[int(rng.integers(0, len(cand)))]
+    e = np.zeros((R, C))
+    e[i, l] = 1.0
+    return i, l, e
+
+  dom_lines, dom_checks = [], []   # membership of the drawn fields in the model's Dom (driver op `dom`)
+
+  def dom_member(g, fast, k, x, want, what, desc):
+    R, C = g.modal_shape
+    ctx.expect(in_dom(g, k, x) == want, 'domain:draw',
+               f'{what}: membership in Dom(k={k}) is {in_dom(g, k, x)}, wanted {want}', dict(grid=desc, k=k))
+    if R * C <= 160:
+      dom_lines.append(f'grid F dom {layout_token(g, fast)} {k} {fmat(x)}')
+      dom_checks.append((dict(grid=desc, k=k, what=what, x=x.tolist() if R * C <= 60 else what), want))
 
   for spec in hyp_table:
     fast, M, L, nlon, nlat, spacing, radius, offset, base = spec
@@ -388,9 +442,33 @@ def run(ctx: common.Ctx):
     g = make_grid(sh, *spec)
     R, C = g.modal_shape
     ctx.dist['hyp-grids'] += 1
+    # side condition `hcos` of the wind theorems: no node at a pole
+    sl = np.asarray(g.nodal_axes[1])
+    ctx.expect(bool(np.all(np.abs(sl) < 1) and np.all(np.asarray(g.cos_lat) > 0)), 'admissible:cos-lat',
+               f'a {spacing} grid has a node with |sin(lat)| >= 1 or cos(lat) <= 0: max|sin_lat|={np.abs(sl).max()!r}',
+               dict(grid=desc))
     for c in (False, True):
       k = 2 if c else 1
       psi, vor, dv = dom(g, k), dom(g, k), dom(g, k)
+      for nm, fld in (('psi', psi), ('vor', vor), ('div', dv)):
+        dom_member(g, fast, k, fld, True, f'dom() draw {nm}', desc)
+      # negative control: one entry off the mask -> not in Dom, and Hyp-A fails on the real code
+      off = off_mask_unit(g, k)
+      if off is not None:
+        i0, l0, e0 = off
+        ctx.dist['control-unmasked'] += 1
+        dom_member(g, fast, k, e0, False, f'unit off the mask at ({i0},{l0})', desc)
+        with ctx.impl('control', dict(grid=desc, clip=c, row=i0, l=l0), 'operator raised'):
+          gr0 = g.cos_lat_grad(jnp.asarray(e0), clip=c)
+          S0 = tuple(g.to_modal(g.to_nodal(comp) * g.sec2_lat) for comp in gr0)
+          A0 = np.asarray(g.div_cos_lat(S0, clip=c))
+          lap0 = np.asarray(g.laplacian(jnp.asarray(e0)))
+          ctx.case(('control', spec, c, i0, l0))
+          ctx.expect(abs(A0[i0, l0] - lap0[i0, l0]) > 0.5 * abs(lap0[i0, l0]) > 0, 'control:hypA-unmasked',
+                     f'negative control: Hyp-A was expected to FAIL for the unit field off the mask at row {i0}, '
+                     f'l={l0} (to_nodal discards it, the Laplacian does not) but lhs={A0[i0, l0]!r} '
+                     f'rhs={lap0[i0, l0]!r}: the domain Dom of the theorems would no longer be sharp',
+                     dict(grid=desc, clip=c, row=i0, l=l0))
       inp = dict(grid=desc, clip=c, psi=psi.tolist() if R * C <= 60 else f'seeded dom sample {psi.shape}')
       ctx.case(('hyp', spec, c, psi.tobytes()))
       with ctx.impl('hyp', inp, 'operator raised'):
@@ -440,6 +518,37 @@ def run(ctx: common.Ctx):
         il = np.asarray(g.inverse_laplacian(rng.standard_normal((R, C))))
         ctx.expect(not il[:, 0].any() and not il[:, L:].any(), 'roundtrip:laplacian',
                    'inverse_laplacian is not zero at l=0 / on the padding', dict(grid=desc))
+
+  # membership of every drawn field (small grids) in the model's `Dom` (`domB`, theorem `domB_iff`)
+  if dom_lines:
+    douts = ctx.model(dom_lines)
+    if all(o == 'bad-op' for o in douts):
+      ctx.notes.append('driver op `grid dom` not available in this lean tree (fix f_C02 not merged yet): membership of '
+                       'the drawn fields in Dom checked on the Python side only (`in_dom`)')
+    else:
+      for (inp, want), o in zip(dom_checks, douts):
+        ctx.corr_exact('Dom-membership', inp, want, o == '1')
+      ctx.dist['dom-membership-model'] += len(dom_checks)
+
+  # the side condition cos(lat) != 0 is violated by grids with nodes at the poles: recorded, and such grids are
+  # excluded from every probe that divides by cos(lat)
+  gp = make_grid(sh, 0, 3, 4, 8, 9, 'equiangular_with_poles', 1.0, 0.0, None)
+  pole_ok = bool(np.abs(np.asarray(gp.nodal_axes[1])).max() == 1.0 and np.asarray(gp.cos_lat).min() == 0.0)
+  ctx.case(('control-poles',))
+  ctx.expect(pole_ok, 'control:poles',
+             'negative control: equiangular_with_poles was expected to have nodes with cos(lat) = 0 '
+             f'(min cos_lat = {np.asarray(gp.cos_lat).min()!r}); if it has none, the exclusion of this spacing from '
+             'the wind probes should be lifted', dict(spacing='equiangular_with_poles', nlat=9))
+  ctx.notes.append('equiangular_with_poles grids are excluded from sec2_lat, both wind conversions, Hyp-A/Hyp-B and the '
+                   'round trips: they violate the side condition `∀ c ∈ cosl, c ≠ 0` (hcos) of vor_div_roundtrip / '
+                   'vor_div_roundtrip_clipped / vor_div_roundtrip_eps / div_rotated_gradient / sandwich_linear '
+                   '(cos(lat) = 0 at the poles: the code returns inf/nan there, the totalised model 0); gauss and '
+                   'equiangular grids satisfy it (Lean: cosLat_ne_zero, equiangular_cosLat_ne_zero; checked on every '
+                   'grid used: admissible:cos-lat)')
+  ctx.notes.append('Hyp-A/Hyp-B are validated on fields drawn from exactly Dom (masked, zero mean, top 1 resp. 2 '
+                   'wavenumbers empty); residuals are measured relative to max|laplacian psi|, which is the hypothesis '
+                   'of vor_div_roundtrip_eps with eps = 1e-9 (conclusion: round trip within 2e-9 of the identity '
+                   'relative to max(|vor|,|div|)); off the mask Hyp-A fails (control:hypA-unmasked)')
 
   # ---------------------------------------------------------------- coefficient-space identities on the real operators
   for spec in hyp_table[:ctx.n(8, 40)]:
